@@ -185,3 +185,46 @@ func Table(name string, key int) int {
 
 // Observe records a named value for counterexample replay and evidence.
 func Observe(name string, v any) { Observed[name] = fmt.Sprint(v) }
+
+// Relation is what a Functional / Monotone call saw in this run.
+type Relation struct {
+	Val    float64
+	Digits []int
+}
+
+// Relations holds the last Functional / Monotone observation per name.
+var Relations = map[string]Relation{}
+
+// Functional states that val is a function of the digits over all inputs:
+// any two inputs with equal digits give equal val (2-safety; decided by the
+// check driver over the solver-enumerated cubes, replayed on input pairs).
+func Functional(name string, val float64, digits ...int) {
+	Relations[name] = Relation{val, append([]int(nil), digits...)}
+}
+
+// Monotone states that val never decreases when one digit (a severity rank,
+// 0 = least severe) increases by one and the others stay fixed.
+func Monotone(name string, val float64, digits ...int) {
+	Relations[name] = Relation{val, append([]int(nil), digits...)}
+}
+
+// Param is a harness parameter fixed by the check driver for this run
+// (bounds such as the maximal input length); natively it comes from the
+// model file or the environment (VERIF_<name>), else the default.
+func Param(name string, def int) int {
+	if cur != nil {
+		if v, ok := cur.Values["param_"+name]; ok {
+			var n int
+			if _, err := fmt.Sscan(string(v), &n); err == nil {
+				return n
+			}
+		}
+	}
+	if s := os.Getenv("VERIF_" + name); s != "" {
+		var n int
+		if _, err := fmt.Sscan(s, &n); err == nil {
+			return n
+		}
+	}
+	return def
+}
